@@ -56,8 +56,9 @@ func (td TypeDeclaration) CompletionAtPos(ctx context.Context, pos hcl.Pos) []la
 			return allTypeDeclarationsAsCandidates(prefix, editRange)
 		}
 
-		// position inside paranthesis
-		if hcl.RangeBetween(eType.OpenParenRange, eType.CloseParenRange).ContainsPos(pos) {
+		// position inside paranthesis (not in front of the opening one)
+		if pos.Byte >= eType.OpenParenRange.End.Byte &&
+			hcl.RangeBetween(eType.OpenParenRange, eType.CloseParenRange).ContainsPos(pos) {
 			if isTypeNameWithElementOnly(eType.Name) {
 				if len(eType.Args) == 0 {
 					editRange := hcl.Range{
